@@ -184,7 +184,34 @@ def run(ctx):
             except Exception as e:       # noqa
                 out = type(e).__name__
             case["history"].append([what, name, out])
-        final = ["runpp", "rundcpp", "init_results", "runpp_poisoned"][k % 4]
+        final = ["runpp", "rundcpp", "init_results", "runpp_poisoned", "runpp_recycled"][k % 5]
+        REC = {"bus_pq": True, "trafo": True, "gen": True}
+        if final == "runpp_recycled":
+            # a user-requested recycled calculation: valid when only tables of the recycled parts changed since the stored ppc
+            try:
+                with core.quiet():
+                    pp.runpp(net, calculate_voltage_angles=True)       # full build: the stored ppc belongs to the current tables
+            except Exception:       # noqa
+                ctx.hist("final", "runpp_recycled:no-previous-solution")
+                continue
+
+            def rec_mod(n):
+                out = []
+                if len(n.load):
+                    i = rng.choice(list(n.load.index))
+                    n.load.at[i, "p_mw"] = float(n.load.at[i, "p_mw"]) * rng.choice([0.7, 1.2])
+                    out.append(f"load[{i}].p_mw")
+                for tab in ("trafo", "trafo3w"):
+                    for i in n[tab].index:
+                        if not pd.isna(n[tab].at[i, "tap_pos"]) and rng.random() < 0.7:
+                            n[tab].at[i, "tap_pos"] = float(n[tab].at[i, "tap_pos"]) + rng.choice([-1, 1, 2])
+                            out.append(f"{tab}[{i}].tap_pos")
+                if len(n.gen) and rng.random() < 0.5:
+                    i = rng.choice(list(n.gen.index))
+                    n.gen.at[i, "p_mw"] = float(n.gen.at[i, "p_mw"]) * 0.8
+                    out.append(f"gen[{i}].p_mw")
+                return "+".join(out)
+            case["history"].append([both(rec_mod), "-", "-"])
         if final == "init_results":
             # previous results of a nearby switching state: a converged Newton-Raphson run, then one more modification
             try:
@@ -217,6 +244,8 @@ def run(ctx):
             with core.quiet():
                 if fin == "rundcpp":
                     pp.rundcpp(n)
+                elif fin == "runpp_recycled" and n is net:
+                    pp.runpp(n, recycle=REC, **opts)
                 elif fin == "init_results" and n is net and "res_bus" in n and len(n.res_bus) == len(n.bus) and \
                         n.res_bus.index.equals(n.bus.index):
                     pp.runpp(n, init="results", **opts)
@@ -246,7 +275,7 @@ def run(ctx):
         for t, rows in before_rows.items():
             if list(net[t].index) != list(fresh[t].index):
                 ctx.failure(f"rows:{t}", f"{t} rows of the net with history {list(net[t].index)[:10]} vs fresh copy {list(fresh[t].index)[:10]}", case)
-        d = compare(net, fresh, DC_COLS if final == "rundcpp" else COLS, 1e-5 if final == "init_results" else 1e-6)
+        d = compare(net, fresh, DC_COLS if final == "rundcpp" else COLS, 1e-5 if final in ("init_results", "runpp_recycled") else 1e-6)
         if d:
             ctx.failure(f"differs:{final}", f"{final} after history {case['history']}: {d}", case)
         ctx.sample({"history": case["history"], "final": final}, cap=5)
